@@ -195,6 +195,28 @@ def run_lie(ctx, ltype, L, batch, dim_first, fn, order, inplace, dtype):
     return {"cfg": cfg, "ev": ev}
 
 
+def fold_events(ctx):
+    """cumprod / cummul on lattice LieTensors with the expected fold recomputed by TLC from LieExact
+    (independent of the library's own binary product)."""
+    import torch
+    from vlib import lattice as LL
+    pp = pypose()
+    rng = ctx.rng
+    ev = []
+    for ty in LL.TYPES:
+        for L in ([2, 3, 5, 7] if ctx.quick else [2, 3, 4, 5, 6, 7, 8, 9, 11, 16]):
+            for left in (True, False):
+                dtype = rng.choice([torch.float64, torch.float32])
+                rows = [LL.rand_elem(rng, ty, tbox=1, sbox=1) for _ in range(L)]
+                X = LL.mk(ty, rows, dtype)
+                fn = rng.choice(["cumprod", "cummul", "cumprod_", "cummul_"])
+                Y = getattr(X.clone(), fn)(0, left=left)
+                ev.append({"op": "cumfold", "ty": ty, "left": left, "fn": fn,
+                           "xs": [LL.dyvec(X.tensor()[i]) for i in range(L)],
+                           "outs": [LL.dyvec(Y.tensor()[i]) for i in range(L)]})
+    return ev
+
+
 def gen_traces(ctx):
     """The calls are made in a shuffled order (seeded): the result must depend on the input only, not on
     which lengths were scanned before in the same process."""
@@ -296,6 +318,15 @@ def run(ctx):
     ctx.sample({"cfg": traces[-1]["cfg"], "ev": traces[-1]["ev"]})
     verdicts = ctx.validate("ScanTrace", "ScanTrace.cfg", traces, "scan", chunk=3000)
     judge(ctx, traces, verdicts)
+    fev = fold_events(ctx)
+    ftr = [{"cfg": {"ty": e["ty"], "kind": "cumfold"}, "ev": [e]} for e in fev]
+    for tr, v in zip(ftr, ctx.validate("LieTrace", "LieTrace.cfg", ftr, "fold", chunk=400)):
+        e = tr["ev"][0]
+        ctx.cover("cumfold:%s:%s:%d:%s" % (e["ty"], e["fn"], len(e["xs"]), e["left"]))
+        if v != "ok":
+            ctx.violation("cumfold/%s/%s" % (e["ty"], v.split("@")[0]),
+                          "%s(left=%s) on %d lattice %s items differs from the fold computed by LieExact" % (e["fn"], e["left"], len(e["xs"]), e["ty"]),
+                          {"trace": tr})
 
 
 def selftest(ctx):
